@@ -330,6 +330,16 @@ def step (st : State) (w : List String) : State × String :=
       let wb := wire && (q.opt.isNone || (q.opt.map (·.version)) == some 0)
       (st, showReply q (serveGuarded (msgLen true) (msgLen false) consts st.cfg p q wb (fun q' => .done (some (as112Reply q')))))
     | _, _ => (st, "bad-op")
+  | ["edns", "ratelimit", path, proto, ks, _q1, q2, r] =>
+    match parseProto proto, parseQ q2, parseR r with
+    | some p, some q, some u =>
+      let known := ks.startsWith "k=t"
+      let same := ks.endsWith "s=t"
+      let wire := path == "w" && wireEligible q
+      let wb := wire && (q.opt.isNone || (q.opt.map (·.version)) == some 0)
+      let next := fun (q' : Query) => Outcome.done (upstream u (!wire) q')
+      (st, showReply q (ratelimitServe (msgLen true) (msgLen false) consts st.cfg p q wb known same true next))
+    | _, _, _ => (st, "bad-op")
   | "edns" :: "tomsg" :: q :: r :: rest =>
     match parseQ q, parseR r with
     | some q, some u =>
